@@ -89,7 +89,7 @@ Profile make_profile(const std::string& name)
     if (name == "budget")  // C02: fill to exactly N elements / B bytes, erase / refill cycles
         set({{OP_FILL, 14}, {OP_EMPLACE_BACK, 20}, {OP_ERASE_POS, 12}, {OP_ERASE_RANGE, 8}, {OP_RESERVE, 8}, {OP_CONSTRUCT, 10}, {OP_DESTROY, 6}, {OP_MUTATE, 2}});
     else if (name == "copymove")  // C09 C08 C05 C07
-        set({{OP_COPY_CONSTRUCT, 10}, {OP_MOVE_CONSTRUCT, 10}, {OP_COPY_ASSIGN, 14}, {OP_MOVE_ASSIGN, 14}, {OP_SWAP, 10}, {OP_DESTROY, 8}, {OP_CONSTRUCT, 10}, {OP_EMPLACE_BACK, 24}, {OP_MUTATE, 10}, {OP_CLEAR, 4}});
+        set({{OP_COPY_CONSTRUCT, 10}, {OP_MOVE_CONSTRUCT, 10}, {OP_COPY_ASSIGN, 14}, {OP_MOVE_ASSIGN, 14}, {OP_SWAP, 10}, {OP_DESTROY, 8}, {OP_CONSTRUCT, 10}, {OP_EMPLACE_BACK, 24}, {OP_MUTATE, 10}, {OP_CLEAR, 4}, {OP_RESEAT, 12}});
     else if (name == "reserve")  // C10
         set({{OP_RESERVE, 30}, {OP_FILL, 8}, {OP_EMPLACE_BACK, 24}, {OP_POP_BACK, 6}, {OP_ERASE_POS, 6}, {OP_CONSTRUCT, 8}});
     else if (name == "empty")  // C18
@@ -159,6 +159,7 @@ struct Engine
         bool grow_partial = false;  // C10
         int quiet_streak = 0, max_quiet_streak = 0;  // C16
         bool empty_nonfresh = false;  // C18
+        int reseats = 0;              // C11: iterator objects re-assigned after the pool changed
         uint64_t hash = 0;
         std::vector<std::string> trace;
     } cf;
@@ -1027,6 +1028,7 @@ struct Engine
         const int form = static_cast<int>(rng.below(5));
         static const char* const names[] = {"const_iterator = iterator", "const_iterator = const_iterator", "iterator = iterator; const_iterator = it", "fresh const_iterator = iterator", "iterator = iterator"};
         begin_op(OP_RESEAT, i, -1, fmt("v%d,idx=%zu,form=%s", i, idx, names[form]));
+        ++cf.reseats;
         const auto a = before();
         const auto off = static_cast<std::ptrdiff_t>(idx);
         bool via_mutable = false;
@@ -1265,9 +1267,9 @@ int main(int argc, char** argv)
                 violation("C18,C01", "junk_dependent_observations", "the same history observed different sizes/capacities under two junk patterns", "case", "");
         }
         std::string nt = "{";
-        nt += fmt("\"C01\":%d,\"C02\":%d,\"C03\":%d,\"C04\":%d,\"C05\":%d,\"C06\":%d,\"C07\":%d,\"C08\":%d,\"C09\":%d,\"C10\":%d,\"C16\":%d,\"C18\":%d}", int(cf.reloc_then_mutation), int(cf.full_exact_budget),
+        nt += fmt("\"C01\":%d,\"C02\":%d,\"C03\":%d,\"C04\":%d,\"C05\":%d,\"C06\":%d,\"C07\":%d,\"C08\":%d,\"C09\":%d,\"C10\":%d,\"C16\":%d,\"C18\":%d,\"C11\":%d}", int(cf.reloc_then_mutation), int(cf.full_exact_budget),
                   int(cf.aligned_after_odd_span), int(cf.zero_or_unequal_span), int(cf.realloc_with_block), int(cf.overlap_reloc_or_unequal_transfer), int(cf.data_allocs >= 3 && cf.assign_grow && cf.assign_shrink),
-                  int(cf.unequal_arena_transfer), int(cf.partial_source_nonempty_target), int(cf.grow_partial), int(cf.max_quiet_streak >= 10), int(cf.empty_nonfresh));
+                  int(cf.unequal_arena_transfer), int(cf.partial_source_nonempty_target), int(cf.grow_partial), int(cf.max_quiet_streak >= 10), int(cf.empty_nonfresh), int(cf.reseats >= 2));
         J j;
         j.kv("t", "case_end").kv("case", c).kv("steps", static_cast<int64_t>(e.step)).kv("viol", out().viol_in_case + v1).kv("hash", fmt("%016" PRIx64, cf.hash)).raw("nt", nt).kv("junk_diff", diff_run);
         if (c - from < 2) j.raw("trace", jarr_str(cf.trace));
